@@ -199,7 +199,7 @@ func cmdCheck(args []string) {
 	var boundedOut map[string]interface{}
 	if spec.Harness != nil {
 		var hv []Violation
-		boundedOut, hv = runHarness(*vdir, *prop, *tier, spec.Harness.Dir, spec.Harness.What)
+		boundedOut, hv = runHarness(*vdir, *prop, *tier, spec.Harness.Dir, spec.Harness.What, known)
 		viols = append(viols, hv...)
 	}
 
@@ -377,7 +377,7 @@ func cmdCheck(args []string) {
 }
 
 // runHarness builds and runs a bounded harness; its JSON result list becomes evidence and violations.
-func runHarness(vdir, prop, tier, dir, what string) (map[string]interface{}, []Violation) {
+func runHarness(vdir, prop, tier, dir, what string, known []KnownFinding) (map[string]interface{}, []Violation) {
 	bin := filepath.Join(vdir, "bin", dir)
 	out := map[string]interface{}{"label": "BOUNDED (stand-in, not counted as proved)", "what": what}
 	fail := func(msg string) (map[string]interface{}, []Violation) {
@@ -456,6 +456,12 @@ func runHarness(vdir, prop, tier, dir, what string) (map[string]interface{}, []V
 		if r.Status != "known-deviation" {
 			// a known finding only covers circuits that still show exactly the recorded behaviour
 			v.Kind = "bounded-new"
+		}
+		// a configuration listed as a known finding is matched individually (never grouped with others)
+		if matchKnown(known, &v) != nil || (v.Kind == "bounded-new" && matchKnown(known, &Violation{Property: v.Property, Obligation: v.Obligation, Function: v.Function, Kind: "bounded"}) != nil) {
+			v.Kind = "bounded"
+			viols = append(viols, v)
+			continue
 		}
 		// one violation per builder, class and kind: the first (smallest) configuration stands for the rest
 		gk := r.Builder + "#" + r.Class + "#" + v.Kind
